@@ -431,6 +431,8 @@ MUTANTS = [
         self.push_jump_back_op(Op::JumpBack, &[], iter_start_ip)?;""", expect="V-codegen2::Compiler::compile_export_iterable::every_entry_exported_loop_left_when_exhausted"),
     dict(name="codegen2_export_iterable_registers_not_released", kind="break", prop="C01", units=["V-codegen2"], file="crates/bytecode/src/compiler.rs",
          old="        self.update_offset_placeholder(iter_finished_offset)?;\n        self.truncate_register_stack(stack_count)?;", new="        self.update_offset_placeholder(iter_finished_offset)?;", expect="V-codegen2::Compiler::compile_export_iterable::temporaries_released"),
+    dict(name="vm_overridden_op_result_leaves_registers", kind="break", prop="C07", units=["V-vmproto"], file="crates/runtime/src/vm.rs",
+         old="        self.truncate_registers(result_register);\n        result\n    }\n\n    /// Makes a KIterator that iterates over the provided value's contents", new="        result\n    }\n\n    /// Makes a KIterator that iterates over the provided value's contents", expect="V-vmproto::KotoVm::"),
     # ---- F41
     dict(name="arith_f41_registers_of_the_call_left_on_the_value_stack", kind="break", prop="C17", units=["V-arith"], file="crates/runtime/src/vm.rs",
          old="""                    $self.registers.truncate(old_register_count);
